@@ -329,6 +329,22 @@ def _run(ctx, prop, n_q, n_t, rule, gen_kw=None, case_kw=None, filt=None, varian
             s, kw = b()
             extra.append(drv_solve.solve_case(s, 10 ** 6 + len(extra), **kw))
         validate_cases(ctx, res, extra)
+    # hand-built scenarios (structural situations random generation reaches only now and then), also solved phase by phase
+    import scenarios
+    sc = []
+    for name, s_or_exc, kw in scenarios.build_all():
+        if isinstance(s_or_exc, Exception):
+            sc.append(drv_solve.BuildFailure(None, "scenario " + name, {}, s_or_exc).case(4 * 10 ** 6 + len(sc)))
+            continue
+        c = drv_solve.solve_case(s_or_exc, 4 * 10 ** 6 + len(sc), rail_rep=True, **kw)
+        c["scenario"] = name
+        sc.append(c)
+        for p in list(s_or_exc.get_sys_phases())[:2]:
+            c2 = drv_solve.solve_case(s_or_exc, 4 * 10 ** 6 + len(sc), rail_rep=True, phase=p, **kw)
+            c2["scenario"] = name + " phase " + p
+            sc.append(c2)
+    validate_cases(ctx, res, sc)
+    res.extra["scenarios"] = len(sc)
     # every solve() table the repository's own test-suite produces (recorded from a scratch copy of /repo/tests)
     import repotests
     rt = repotests.for_checks()
